@@ -188,3 +188,62 @@ int o_solution(const xs *s, int trans, const dmat *Bafter, vres *r, double *rati
     }
     return 0;
 }
+
+/* ------------------------------------------------------------- incomplete LU */
+const int xs_ilu_drops[7] = { NODROP, DROP_BASIC, DROP_BASIC | DROP_AREA, DROP_BASIC | DROP_PROWS, DROP_BASIC | DROP_COLUMN, DROP_BASIC | DROP_AREA | DROP_DYNAMIC, DROP_BASIC | DROP_PROWS | DROP_INTERP };
+static const double ILU_TOLS[] = { 1e-4, 0.5, 0.0 };
+static const double ILU_FILLS[] = { 10.0, 1.0, 2.0 };
+static const norm_t ILU_NORMS[] = { INF_NORM, ONE_NORM, TWO_NORM };
+static const milu_t ILU_MILUS[] = { SILU, SMILU_2, SMILU_1, SMILU_3 };
+void xs_ilu_options(const vcase *c, int rowperm, superlu_options_t *opt)
+{
+    ilu_set_default_options(opt); opt->PrintStat = NO;
+    int kk = c->k, drop = kk % 7, tol = (kk / 7) % 3, fill = (kk / 21) % 3, norm = (kk / 63) % 3, milu = (kk / 189) % 4;
+    opt->ILU_DropRule = xs_ilu_drops[drop]; opt->ILU_DropTol = ILU_TOLS[tol]; opt->ILU_FillFactor = ILU_FILLS[fill]; opt->ILU_Norm = ILU_NORMS[norm]; opt->ILU_MILU = ILU_MILUS[milu];
+    opt->RowPerm = rowperm ? LargeDiag_MC64 : NOROWPERM; opt->Trans = (trans_t[]){ NOTRANS, TRANS, CONJ }[c->trans];
+    opt->ColPerm = (colperm_t[]){ NATURAL, MMD_ATA, MMD_AT_PLUS_A, COLAMD }[c->colperm]; opt->Equil = c->equil ? YES : NO; opt->DiagPivotThresh = c->u;
+    opt->ConditionNumber = (c->pat & 1) ? YES : NO; opt->PivotGrowth = NO;
+}
+int ilu_nodrop(int k)
+{
+    int drop = k % 7, tol = (k / 7) % 3, milu = (k / 189) % 4;
+    return ((xs_ilu_drops[drop] == NODROP) || (ILU_TOLS[tol] == 0.0 && !(xs_ilu_drops[drop] & DROP_SECONDARY))) && milu == 0;
+}
+int o_ilu(const xs *s_, int trans, int equil, const dmat *A_in, const dmat *B_in, const dmat *B_after, int nodrop, int cond, vres *r, ilu_stats *st)
+{
+    const xs *s = s_; const vf_type *T = s->T; int n = s->n; long info = s->info;
+    memset(st, 0, sizeof *st);
+    if (info < 0 || info > n + 1) return wk_fail(r, "unexpected-info", "info=%ld from the ILU driver on a structurally nonsingular matrix (n=%d)", info, n);
+    if (info == n + 1 && !cond) return wk_fail(r, "unexpected-info", "info=n+1 although ConditionNumber=NO");
+    if (!is_perm(s->perm_r, n) || !is_perm(s->perm_c, n)) return wk_fail(r, "perm-not-bijection", "perm_r / perm_c is not a permutation (info=%ld)", info);
+    verdict vd; memset(&vd, 0, sizeof vd);
+    if (check_LU_structure(T, &s->L, &s->U, n, n, 1, &vd)) return wk_fail(r, "structure", "%s", vd.msg);
+    const SCformat *Ls = s->L.Store; if (Ls->nsuper < n - 1) st->multi = 1;
+    dmat Ld, Ud; if (expand_L(T, &s->L, &Ld) || expand_U(T, &s->L, &s->U, &Ud)) return wk_fail(r, "structure", "cannot expand factors");
+    for (int j = 0; j < n; j++) { xc u = DM(&Ud, j, j); if (u == 0 || !isfinite((double)creall(u)) || !isfinite((double)cimagl(u))) return wk_fail(r, "bad-diagonal", "U(%d,%d) = %Lg%+Lgi (info=%ld)", j, j, creall(u), cimagl(u), info); }
+    /* scaling of A and B as documented */
+    char e = s->equed[0];
+    if (o_scaling(s, A_in, B_in, trans, equil, r)) return 1;
+    /* X is exactly the preconditioner solve defined by the returned factors: residual w.r.t. M = Pr' L U Pc' */
+    int notran_eff = (trans == 0); if (s->stor == 1) notran_eff = !notran_eff;
+    int rowequ = (e == 'R' || e == 'B'), colequ = (e == 'C' || e == 'B');
+    dmat M, G, Xd, Xs; memset(&M, 0, sizeof M); M.m = M.n = n;
+    for (int i = 0; i < n; i++) for (int j = 0; j < n; j++) { int pi = s->perm_r[i], pj = s->perm_c[j]; xc acc = 0; for (int k2 = 0; k2 <= pi && k2 <= pj; k2++) acc += DM(&Ld, pi, k2) * DM(&Ud, k2, pj); DM(&M, i, j) = acc; DZ(&M, i, j) = 1; }
+    build_G(&Ld, &Ud, s->perm_r, s->perm_c, 0, &G);
+    dn_to_dense(&s->X, &Xd); Xs = Xd;
+    for (int j = 0; j < s->nrhs; j++) for (int i = 0; i < n; i++) { xr f = (notran_eff && colequ) ? T->rld(s->Cbuf, i) : (!notran_eff && rowequ) ? T->rld(s->Rbuf, i) : 1; DM(&Xs, i, j) = DM(&Xd, i, j) / f; }
+    int op = (s->stor == 0) ? trans : (trans == 0 ? 1 : 0);      /* effective operation on the factored orientation */
+    vres r2; memset(&r2, 0, sizeof r2);
+    if (o_residual(T, &M, op, &G, B_after, &Xs, 16.0, &r2, &st->ratio_solve)) {
+        if (s->stor == 1 && trans == 2 && T->cplx) st->quirk = 1;
+        return wk_fail(r, "solve-not-factor-solve", "X is not the solve with the returned factors: %s", r2.msg);
+    }
+    /* dropping disabled and no pivot replaced: complete-LU guarantees */
+    if (nodrop && info == 0) {
+        dmat A1, F; xs_current_A(s, &A1); if (s->stor == 0) F = A1; else transpose_dm(&A1, &F);
+        if (check_LU_identity(T, &F, &Ld, &Ud, s->perm_r, s->perm_c, 16.0, &vd)) return wk_fail(r, "nodrop-not-exact", "dropping disabled, no pivot replaced, but %s", vd.msg);
+        st->ratio_id = vd.ratio; st->exact = 1;
+    }
+    { const NCformat *Us = s->U.Store; for (int j = 0; j < n; j++) { unsigned seen = 0; for (int_t k2 = Us->colptr[j]; k2 < Us->colptr[j + 1]; k2++) { if (seen >> Us->rowind[k2] & 1) { st->urep = 1; j = n; break; } seen |= 1u << Us->rowind[k2]; } } }
+    return 0;
+}
